@@ -341,6 +341,10 @@ def mk_forest(lang, n, part, nparts):
         else:
             d = C.build(forest.css_kinds(w, 1, C), 1, stmts=True)[0]
         docs += [d, d[:(3 * len(d)) // 4], d[:len(d) // 2]]
+    if lang == 'css':
+        # stylesheets that make the matchers re-use pooled range objects (second rule starts with a declaration / statement / rule)
+        fam = C.pool_family()
+        docs += [C.build(ks, r)[0] for r in (0, 1) for i, ks in enumerate(fam) if i % nparts == part]
     if lang == 'html':
         inner = mk_html_match(0, 0, 128, False)['check']
     else:
@@ -369,7 +373,7 @@ def mk_forest(lang, n, part, nparts):
         return 'twin'
     return {'fn': h, 'twin': twin, 'witnesses': [{'i': 0, 'pos': 3}, {'i': len(docs) - 1, 'pos': 1}],
             'assumptions': ['%s input = forest document %d mod %d of the %d forests with %d nodes, whole / first 3/4 / first half (solver-chosen '
-                            'index); pos any integer' % (lang, part, nparts, len(forest.dyck(n)), n)],
+                            'index)%s; pos any integer' % (lang, part, nparts, len(forest.dyck(n)), n, ' plus the pool family of vf/gen/cssdoc.py (216 stylesheets)' if lang == 'css' else '')],
             'functions': ['html_matcher.scan/match/balanced_outward/balanced_inward' if lang == 'html' else
                           'css_matcher.scan/match/balanced_outward/balanced_inward (pooled ranges)']}
 
